@@ -186,7 +186,9 @@ def read_tls(data: bytes) -> Result:
             if rest >= 3 and data[p + 2] > 3:
                 return Result("invalid", reason="record version minor")
             return Result("incomplete", reason="record header")
-        if data[p] != 0x16 or data[p + 1] != 3 or data[p + 2] > 3:
+        if data[p] != 0x16:
+            return Result("invalid", reason="record content type")
+        if data[p + 1] != 3 or data[p + 2] > 3:
             return Result("invalid", reason="record header")
         ln = _u16(data, p + 3)
         if ln == 0 or ln > MAX_RECORD:
@@ -230,7 +232,9 @@ def read_dtls(data: bytes) -> Result:
             if rest >= 3 and _u16(data, p + 1) not in DTLS_VERSIONS:
                 return Result("invalid", reason="record version")
             return Result("incomplete", reason="record header")
-        if data[p] != 0x16 or _u16(data, p + 1) not in DTLS_VERSIONS:
+        if data[p] != 0x16:
+            return Result("invalid", reason="record content type")
+        if _u16(data, p + 1) not in DTLS_VERSIONS:
             return Result("invalid", reason="record header")
         if _u16(data, p + 3) != 0:
             return Result("invalid", reason="epoch of a first flight must be 0")
